@@ -61,6 +61,15 @@ CLAIMED = {
             "TLC compares every returned matrix (sparse and dense, with index maps) entry by entry on TLC-enumerated "
             "hypergraphs under relabellings, and proves on the specification's own matrices symmetry, zero row sums "
             "and the sum-of-squares identity that certifies positive semidefiniteness."),
+    "C13": ("§4 C13", "TLC evaluates on the logged integer boundary matrices (every order, default and random "
+            "orientations, numeric / string / mixed labels, explicit simplex ids) that each column's non-zeros are "
+            "+-1 exactly at the faces of its simplex, that consecutive products vanish, and that each Hodge Laplacian "
+            "equals B_k^T B_k + B_{k+1} B_{k+1}^T (hence is symmetric PSD), for every complex generated from "
+            "TLC-enumerated generator sets."),
+    "C14": ("§4 C14", "the independent implementation is the TLA+ definition evaluated by TLC: components as closure "
+            "of the node-edge relation, BFS distances by iterated neighbourhoods, clustering as the exact rational "
+            "2T/(k(k-1)), and the vertex / link / weight sets of projection, s-line, bipartite graphs and the "
+            "encapsulation DAG, on every TLC-enumerated hypergraph under relabellings."),
 }
 NOTE = ("Trusted: TLC, the harness projection/adapter (self-tested on every run by corrupting recorded fields), "
         "and the bounded universes listed in the evidence; outside them only random histories.")
